@@ -733,16 +733,26 @@ def r25_arg_flow(ctx):
     var_of = {}
     for n in walk_no_nested(f.node):
         if isinstance(n, ast.Call) and isinstance(n.func, ast.Attribute) \
+                and n.func.attr == "get_time_zone_info":
+            # the zone matcher takes the format restriction only: the name
+            # it receives is the format-restriction variable
+            v = ctx.bound_args(f, n).get("bad_formats")
+            if isinstance(v, ast.Name):
+                var_of.setdefault("bad_formats", v.id)
+    for n in walk_no_nested(f.node):
+        if isinstance(n, ast.Call) and isinstance(n.func, ast.Attribute) \
                 and n.func.attr == "get_time_info":
-            for k in n.keywords:
-                if k.arg in ("bad_formats", "bad_types") and isinstance(
-                        k.value, ast.Name):
-                    var_of.setdefault(k.arg, k.value.id)
+            b = ctx.bound_args(f, n)
+            for k_ in ("bad_formats", "bad_types"):
+                if isinstance(b.get(k_), ast.Name) and (
+                        k_ != "bad_types" or
+                        b[k_].id != var_of.get("bad_formats")):
+                    var_of.setdefault(k_, b[k_].id)
     for n in walk_no_nested(f.node):
         if isinstance(n, ast.Call) and isinstance(n.func, ast.Attribute) \
                 and n.func.attr in ("get_time_info", "get_time_zone_info"):
             rep.anchor(rule, "sibling matcher calls")
-            kw = {k.arg: U(k.value) for k in n.keywords}
+            kw = {k_: U(v_) for k_, v_ in ctx.bound_args(f, n).items()}
             need = ["bad_formats"] + (["bad_types"] if n.func.attr ==
                                       "get_time_info" else [])
             missing = [k for k in need if k not in var_of or
